@@ -36,6 +36,10 @@ CHECKS = {
          "Exploration with an enumerated sub-space: all 363 advance sequences of length<=5 over {0,300,700} x TTF/OTF plus ~900 random UFOs; the compiled TTFont is judged twice - ufo2ft's own values before saving (fontTools recomputes hhea/head/OS2/numberOfHMetrics on save) and the reloaded font - against bearings, boxes, aggregates, long-metric counts, VORG, maxp, post names and OS/2 indices recomputed from the stored glyph data; save -> reload -> save (lazy and with every table decompiled) must be byte-identical.",
          "Trusts fontTools' readers (hmtx/vmtx also decoded from raw bytes); CFF tolerances per DESIGN 4.6 as corrected (nearest-integer bearings, outward-rounded aggregates on save); SOURCE_DATE_EPOCH pinned.",
          "DESIGN.md section 5 C04, 4.6"),
+ "C11": ("runtime monitoring: relation between executions (names on / off / lib default) with per-table byte comparison, plus a naming-rule oracle written from the statement",
+         "Exploration: ~560 generated UFOs (hostile glyph names, postscriptNames maps with duplicates/empty/illegal values, lib switches, TTF/CFF/CFF2 and a variable stratum), each compiled three times by the real compile functions; every table except post/'CFF ' must be byte-identical (head checksum masked), CFF charstrings and dict values equal per glyph index, final names unique, legal and admissible under the naming rules.",
+         "Trusts fontTools' sfnt reader; Latin-1 feature-file-safe source names; uniqueness numbering scheme not prescribed.",
+         "DESIGN.md section 5 C11"),
 }
 
 NOT_APPLICABLE = [
